@@ -478,8 +478,12 @@ def rule_bucket_race(ctx):
             my_id = (cbi, ct["dest"]["l"])
             assigned = False
             after = wf.reach_from(ct["target"]) if ct["target"] is not None else set()
+            # equally correct: ignore the result and re-load the (now certainly installed) bucket pointer
+            reloads = set((lbi, lt["dest"]["l"]) for lbi, lt in wf.calls(lambda t: atomic_op(t) == "load")
+                          if lbi in after and wf.dominates(cbi, lbi) and classify(wf, wf.expr_of_operand(lt["args"][0])) == "Bucket.entries")
             for gbi, gt in wf.calls(lambda t: callee(t) == "boxcar::Bucket::<T>::get"):
-                if gbi in after and my_id in call_ids(wf.expr_of_operand(gt["args"][0])):
+                ids_ = call_ids(wf.expr_of_operand(gt["args"][0]))
+                if gbi in after and (my_id in ids_ or (reloads & ids_)):
                     assigned = True
             if assigned:
                 ctx.ok(site(wf, cbi), "pointer returned by get_or_alloc replaces the null `entries`")
